@@ -241,8 +241,62 @@ func (c *Ctx) intrinsic(st *State, fn *ssa.Function, args []Value) (intrRes, boo
 			return r.res.(*StrV)
 		}
 		return done(c.strEq(up(a), up(b)))
-	case "strings.TrimSpace", "strings.Contains", "strings.HasPrefix", "strings.HasSuffix", "strings.Index", "strings.IndexByte",
-		"strings.Split", "strings.Count", "strings.Repeat", "strings.Replace", "strings.ReplaceAll", "strings.Fields", "strings.LastIndex":
+	case "strings.Contains":
+		a, b := args[0].(*StrV), args[1].(*StrV)
+		if a.Opaque == 0 && b.Opaque == 0 && (!a.Conc || !b.Conc) {
+			// symbolic bytes, concrete lengths: OR over positions of AND of byte equalities
+			ab, bb := c.strBytes(a), c.strBytes(b)
+			r := tb.False
+			for i := 0; i+len(bb) <= len(ab); i++ {
+				m := tb.True
+				for j := range bb {
+					m = tb.And(m, tb.Eq(ab[i+j], bb[j]))
+				}
+				r = tb.Or(r, m)
+			}
+			return done(r)
+		}
+		return c.concreteStrings(st, full, args, fn)
+	case "strings.IndexByte":
+		a := args[0].(*StrV)
+		ch := args[1].(*Term)
+		if a.Opaque == 0 && !a.Conc {
+			ab := c.strBytes(a)
+			for i, x := range ab {
+				e := tb.Eq(x, ch)
+				if e.IsTrue() {
+					return done(tb.Const(64, uint64(i)))
+				}
+				if !e.IsFalse() {
+					unsup("strings.IndexByte: undecided byte comparison")
+				}
+			}
+			return done(tb.Const(64, ^uint64(0)))
+		}
+		return c.concreteStrings(st, full, args, fn)
+	case "strings.Split":
+		a, sep := args[0].(*StrV), args[1].(*StrV)
+		if a.Opaque == 0 && !a.Conc && sep.Conc && len(sep.S) == 1 {
+			ab := c.strBytes(a)
+			var parts []Value
+			start := 0
+			for i, x := range ab {
+				e := tb.Eq(x, tb.Const(8, uint64(sep.S[0])))
+				if e.IsTrue() {
+					parts = append(parts, c.mkStr(ab[start:i]))
+					start = i + 1
+				} else if !e.IsFalse() {
+					unsup("strings.Split: undecided separator comparison")
+				}
+			}
+			parts = append(parts, c.mkStr(ab[start:]))
+			id := c.newObj(st, &ValArr{E: parts})
+			n := tb.Const(64, uint64(len(parts)))
+			return done(&SliceV{Arr: Ptr{Obj: id}, Off: tb.Const(64, 0), Len: n, Cap: n})
+		}
+		return c.concreteStrings(st, full, args, fn)
+	case "strings.TrimSpace", "strings.HasPrefix", "strings.HasSuffix", "strings.Index",
+		"strings.Count", "strings.Repeat", "strings.Replace", "strings.ReplaceAll", "strings.Fields", "strings.LastIndex":
 		return c.concreteStrings(st, full, args, fn)
 	case "strconv.Itoa", "strconv.Quote", "strconv.FormatInt", "strconv.FormatUint":
 		return done(c.opaqueStr())
